@@ -8,6 +8,7 @@ import (
 	"os"
 	"os/exec"
 	"path/filepath"
+	"sort"
 	"strings"
 	"unicode"
 )
@@ -561,7 +562,15 @@ func convertArguments(funcType RBSFuncType, aliases typeAliasMap, className stri
 		}
 	}
 
-	for name, kw := range funcType.RequiredKeywords {
+	// keyword parameters arrive as JSON objects (Go maps): emit them in name order
+	requiredNames := make([]string, 0, len(funcType.RequiredKeywords))
+	for name := range funcType.RequiredKeywords {
+		requiredNames = append(requiredNames, name)
+	}
+	sort.Strings(requiredNames)
+
+	for _, name := range requiredNames {
+		kw := funcType.RequiredKeywords[name]
 		if kw.Type != nil {
 			types := convertType(*kw.Type, aliases, className)
 			args = append(args, TiArgument{
@@ -571,7 +580,14 @@ func convertArguments(funcType RBSFuncType, aliases typeAliasMap, className stri
 		}
 	}
 
-	for name, kw := range funcType.OptionalKeywords {
+	optionalNames := make([]string, 0, len(funcType.OptionalKeywords))
+	for name := range funcType.OptionalKeywords {
+		optionalNames = append(optionalNames, name)
+	}
+	sort.Strings(optionalNames)
+
+	for _, name := range optionalNames {
+		kw := funcType.OptionalKeywords[name]
 		if kw.Type != nil {
 			types := convertType(*kw.Type, aliases, className)
 			args = append(args, TiArgument{
